@@ -201,6 +201,8 @@ class SymbolKindTable:
                         tbl[name] = kind
 
         else:
+            # A new entry may let other statements be (re-)inferred.
+            self._changed = True
             tbl[name] = kind
 
     def get(self, phase_name, name):
